@@ -73,6 +73,13 @@ Next ==
   \/ \E f, p \in Names : Do("local " \o f \o " = function(" \o p \o ")", <<E("push", "", 0), E("decl", p, 2)>>, 2, "end", <<E("decl", f, 1)>>)
   \/ \E p \in Names : Do("function u:m(" \o p \o ")", <<E("use", "u", 1), E("keep", "m", 2), E("push", "", 0), E("self", "self", 0), E("decl", p, 3)>>, 3, "end", <<>>)
   \/ Do("u(self)", <<E("use", "u", 1), E("use", "self", 2)>>, 2, "", <<>>)
+  \* `self` as an ORDINARY name: an explicit parameter or local called self shadows the implicit one (which a method
+  \* declares first: `function t:m(p)` is `t.m = function(self, p)`); a dot-function has no implicit self
+  \/ Do("function u:m(self)", <<E("use", "u", 1), E("keep", "m", 2), E("push", "", 0), E("self", "self", 0), E("decl", "self", 3)>>, 3, "end", <<>>)
+  \/ \E p \in Names : Do("function u:m(" \o p \o ", self)", <<E("use", "u", 1), E("keep", "m", 2), E("push", "", 0), E("self", "self", 0), E("decl", p, 3), E("decl", "self", 4)>>, 4, "end", <<>>)
+  \/ Do("function u.m(self)", <<E("use", "u", 1), E("keep", "m", 2), E("push", "", 0), E("decl", "self", 3)>>, 3, "end", <<>>)
+  \/ Do("local self = u", <<E("use", "u", 2), E("decl", "self", 1)>>, 2, "", <<>>)
+  \/ \E x \in Names : Do("local " \o x \o " = self", <<E("use", "self", 2), E("decl", x, 1)>>, 2, "", <<>>)
   \/ \E x, y \in Names : Do("for " \o x \o " = " \o y \o ", " \o y \o " do", <<E("use", y, 2), E("use", y, 3), E("push", "", 0), E("decl", x, 1)>>, 3, "end", <<>>)
   \/ \E x, y \in Names : Do("for " \o x \o " in " \o y \o " do", <<E("use", y, 2), E("push", "", 0), E("decl", x, 1)>>, 2, "end", <<>>)
   \/ \E x \in Names : Do("while " \o x \o " do", <<E("use", x, 1), E("push", "", 0)>>, 1, "end", <<>>)
@@ -96,6 +103,7 @@ NextEvents ==
   \/ \E x \in Names : EvDo(<<E("use", x, 0)>>)
   \/ EvDo(<<E("self", "self", 0)>>)
   \/ EvDo(<<E("use", "self", 0)>>)
+  \/ EvDo(<<E("decl", "self", 0)>>)
 Spec == Init /\ [][Next]_vars
 SpecEvents == Init /\ [][NextEvents]_vars
 
